@@ -68,7 +68,7 @@ def preset_constants(lib):
                 vals = {}
                 for name, o in zip(rv["fields"], rv["ops"]):
                     t = strip(term_of(b, o), mir.VALUE_PRESERVING)
-                    vals[name] = t[1] if t[0] == "const" else None
+                    vals[name] = t[1] if t[0] == "const" else ("" if t[0] == "call" and t[1] == "std::string::String::new" else None)
                 out[path.rsplit("::", 1)[1]] = (vals, s)
     return out
 
